@@ -1188,9 +1188,56 @@ func (m *Model) RunOkObj(s *Sink, rule string, fns []*ssa.Function) {
 		s.Undecided(rule, "object.Object", "-", "not found")
 		return
 	}
-	isLookup := func(f *ssa.Function) bool {
+	// a lookup: (object, found), and the object can be nil — a constant nil, what a map lookup yields, or what another
+	// lookup yields (a function that returns an evaluated object and a verdict is not one)
+	memo := map[*ssa.Function]int{}
+	var isLookup func(f *ssa.Function) bool
+	isLookup = func(f *ssa.Function) bool {
 		r := f.Signature.Results()
-		return m.InModule(f) && r.Len() == 2 && types.Identical(r.At(0).Type(), objT) && isBoolT(r.At(1).Type())
+		if !m.InModule(f) || f.Blocks == nil || r.Len() != 2 || !types.Identical(r.At(0).Type(), objT) || !isBoolT(r.At(1).Type()) {
+			return false
+		}
+		if v, done := memo[f]; done {
+			return v == 1
+		}
+		memo[f] = 2
+		var mayNil func(v ssa.Value, d int) bool
+		mayNil = func(v ssa.Value, d int) bool {
+			if d > 4 {
+				return false
+			}
+			switch x := v.(type) {
+			case *ssa.Const:
+				return x.IsNil()
+			case *ssa.Lookup:
+				return true
+			case *ssa.Phi:
+				for _, e := range x.Edges {
+					if mayNil(e, d+1) {
+						return true
+					}
+				}
+			case *ssa.Extract:
+				if _, isLk := x.Tuple.(*ssa.Lookup); isLk && x.Index == 0 {
+					return true
+				}
+				if c, isC := x.Tuple.(*ssa.Call); isC && x.Index == 0 {
+					for _, cal := range m.calleesOf(c) {
+						if cal == f || isLookup(cal) {
+							return true
+						}
+					}
+				}
+			}
+			return false
+		}
+		for _, b := range f.Blocks {
+			if ret, isRet := b.Instrs[len(b.Instrs)-1].(*ssa.Return); isRet && len(ret.Results) == 2 && mayNil(retSource(ret, 0), 0) {
+				memo[f] = 1
+				return true
+			}
+		}
+		return false
 	}
 	n := 0
 	for _, fn := range fns {
@@ -1248,6 +1295,6 @@ func (m *Model) RunOkObj(s *Sink, rule string, fns []*ssa.Function) {
 		}
 	}
 	if n < 2 {
-		s.Undecided(rule, "comma-ok lookups", "-", "expected at least 2 uses of the object a (object, found) lookup returns (Env.Get in Set, in the identifier evaluation), found %d", n)
+		s.Note(rule, "comma-ok lookups", "-", "%d uses of the object of an (object, found) lookup (on the pinned tree: Env.Get in Set and in the identifier evaluation)", n)
 	}
 }
